@@ -5,7 +5,8 @@
    on the code points of the real view>\t<1|0: real_widths width view>\t<hex of the UTF-8 bytes of the model's pretty
    rendering | P;;>\t<1|0: pretty_ok: the whitespace-tolerant parser of c15_pretty_parse accepts the real pretty text and
    yields the value of the real compact text>\t<1|0: real_consistent: the self-consistency checker of c15_consistent on the real view>\t<1|0: real_offsets: the
-   module-offset checker of c15_offsets_checker on the real view>   (wf field: M = wf_ok and regs_ok hold but a frame's module is not a member of the module list) *)
+   module-offset checker of c15_offsets_checker on the real view>\t<1|0: real_sorted: keys_sorted (c15_keys_sorted) on the real view; wf field K =
+   the register names / soft_errors objects of the state are not sorted (keys_hyp)>   (wf field: M = wf_ok and regs_ok hold but a frame's module is not a member of the module list) *)
 (* UTF-8 is done by the extracted Gallina encoder / strict decoder (Driver.encode_utf8 / decode_utf8) *)
 let bytes_of_string (s : string) : z list = List.init (String.length s) (fun i -> z_of_int (Char.code s.[i]))
 let add_cps (b : Buffer.t) (cps : z list) = List.iter (fun z -> Buffer.add_char b (Char.chr (int_of_z z))) (encode_utf8 cps)
@@ -199,7 +200,7 @@ let () =
          | Some c -> Buffer.add_string b (String.concat "," (List.map (fun f -> string_of_z (flip_confidence_bits f)) c.cr_flips))
          | None -> ());
         Buffer.add_char b '\t';
-        Buffer.add_string b (if wf_ok st then (if regs_ok ctx_kind st then (if mods_ok st then "1" else "M") else "R") else "0");
+        Buffer.add_string b (if wf_ok st then (if regs_ok ctx_kind st then (if mods_ok st then (if keys_ok st then "1" else "K") else "M") else "R") else "0");
         Buffer.add_char b '\t';
         Buffer.add_string b (if real_conforms real_cps then "1" else "0");
         Buffer.add_char b '\t';
@@ -215,6 +216,8 @@ let () =
         Buffer.add_string b (if real_consistent real_cps then "1" else "0");
         Buffer.add_char b '\t';
         Buffer.add_string b (if real_offsets real_cps then "1" else "0");
+        Buffer.add_char b '\t';
+        Buffer.add_string b (if real_sorted real_cps then "1" else "0");
         print_endline (Buffer.contents b)
       end
     done
